@@ -15,6 +15,11 @@ func init() {
 	vScenarios["C13"] = vScenarioC13
 }
 
+// vOvertake (C14 batch "overtake"): the end-of-transfer marker is sent as soon as the peer's
+// handshake line has been seen, so that it can reach the relay before the relay has left the
+// handshaking state. The relay must still return to standby.
+var vOvertake = false
+
 // A scripted party writes a sequence of chunks; before some chunks it waits for an event.
 type vChunk struct {
 	data    []byte
@@ -51,10 +56,17 @@ func vNoise(tp *verifsim.Tape, n int, lfFree bool) []byte {
 func vScenarioC13(rc *runCtx) {
 	tp := rc.tape
 	w := rc.w
+	vOvertake = rc.param("overtake", "0") == "1"
 	rounds := 1 + tp.Pick("c13.rounds", 4, 3, 2)
+	if vOvertake {
+		rounds = 1
+	}
 	var plan []vRound
 	for i := 0; i < rounds; i++ {
 		r := vRound{outcome: []string{"confirm", "cancel", "bad-act", "bad-cfg"}[tp.Pick("c13.outcome", 5, 2, 2, 2)]}
+		if vOvertake {
+			r.outcome = "confirm"
+		}
 		r.ender = []string{"exit", "fail-client", "fail-server", "ctrlc"}[tp.Pick("c13.ender", 4, 2, 2, 2)]
 		plan = append(plan, r)
 	}
@@ -217,6 +229,12 @@ func vScenarioC13(rc *runCtx) {
 						} else if c.waitFor == "exit" && plan[c.round].ender == "fail-server" {
 							break
 						} else if c.waitFor == "cfgdone" {
+							if vOvertake && c.kind == "exit" && bytes.Contains(c.data, []byte("#FAIL:")) && bytes.Count(sGot, []byte("#ACT:")) > 0 {
+								break // a server that fails right after sending its CFG
+							}
+							if vOvertake && bytes.Count(cGot, []byte("#CFG:")) > 0 {
+								break // a client that ends the transfer right after receiving the CFG
+							}
 							if relay != nil && relay.relayStatus.Load() == kRelayTransferring && bytes.Count(cGot, []byte("#CFG:")) > c.round-vNoCfgBefore(plan, c.round) {
 								break
 							}
@@ -264,6 +282,16 @@ func vScenarioC13(rc *runCtx) {
 	rc.res.Scenario["seg"] = seg
 	if !cDone || !sDone {
 		rc.violate("stuck", "C13:script-stuck", "a scripted party never finished (client done=%v server done=%v): the relay stopped forwarding; seen=%v relay status=%d", cDone, sDone, seen, relay.relayStatus.Load())
+		return
+	}
+	if vOvertake {
+		rc.res.ClassKey = "overtake " + rc.res.ClassKey
+		if st := relay.relayStatus.Load(); st != kRelayStandBy {
+			rc.violate("recovery", "C14:marker-overtakes-handshake:"+plan[0].ender, "the transfer was ended (%s) right after the handshake lines had gone through; all bytes were forwarded but the relay is left in state %d (2 = transferring): it scanned neither the buffered nor the flushed bytes for the end marker",
+				plan[0].ender, st)
+			return
+		}
+		rc.res.Nontrivial = true
 		return
 	}
 	cInAll, _, _ := cIn.Snapshot()
